@@ -120,6 +120,11 @@ where
         let data = self.stream.buf_mut().take_chunk(self.remaining_data);
 
         match (data, end) {
+            // The stream ended while a DATA frame still owes payload bytes: the frame is truncated.
+            // (WebTransport streams have no length and legitimately run until the end of the stream.)
+            (None, true) if self.remaining_data != usize::MAX => {
+                Poll::Ready(Err(FrameStreamError::UnexpectedEnd))
+            }
             (None, true) => Poll::Ready(Ok(None)),
             (None, false) => Poll::Pending,
             (Some(d), true)
